@@ -213,6 +213,25 @@ def chains(case, r):
     S = IR.semiring(sem, 'float64')
     vecs = [x for x in patterns_for((n,), 'all') if x[0] in ('dense', 'onehot', 'offset', 'offset-default5', 'stride0-all', 'split')]
     mats = [x for x in patterns_for((n, n), 'all') if x[0] in ('dense', 'diag', 'permuted', 'offset')]
+    # history: a structurally-zero scalar result is overwritten in place by its caller (as fixed-point iteration does
+    # with copy_); a later einsum over an empty index must still yield the semiring zero
+    try:
+        from fggs.indices import PatternedTensor
+        dt = torch.bool if sem == 'bool' else torch.float64
+        zero = S.from_int(0)
+        e0 = PatternedTensor(torch.zeros((0,), dtype=dt), default=zero.item())
+        z = einsum([e0, e0], [('i',), ('i',)], (), S)
+        five = S.from_int(5) if sem != 'bool' else S.from_int(1)
+        z.copy_(PatternedTensor(five.clone(), default=zero.item()))
+        m0 = PatternedTensor(torch.zeros((2, 0), dtype=dt), default=zero.item())
+        again = einsum([m0, e0], [('j', 'i'), ('i',)], ('j',), S).to_dense()
+        z2 = einsum([e0, e0], [('i',), ('i',)], (), S).to_dense()
+        if not (bool((again == zero).all()) and bool((z2 == zero).all())):
+            r.bad('wrong-einsum', 'indices.einsum', sem, 'after a caller overwrote a structurally-zero scalar result in place, a sum over an empty index gives %r / %r instead of the semiring zero %r' % (again.tolist(), z2.tolist(), zero.item()), case, ('chain', n, sem, 'zero-history'))
+        else:
+            r.ok(('chain', n, sem, 'zero-history'), outcome=(sem, 'zero-history'), nontrivial=True)
+    except Exception as e:
+        r.exc(e, sem, case, ('chain', n, sem, 'zero-history'))
     firsts = [((('i',), ('j',)), ('i', 'j'), 'vv'), ((('i',), ('i',)), ('i',), 'vv'), ((('i', 'j'), ('j',)), ('i',), 'mv'), ((('i', 'j'), ('j', 'k')), ('i', 'k'), 'mm'),
               ((('i', 'j'), ('i', 'j')), ('i', 'j'), 'mm')]
     for (ops1, out1, kind) in firsts:
@@ -326,7 +345,7 @@ def equation_case(case, r):
     shapes = [tuple(sizes[c] for c in o) for o in ops]
     lists = [patterns_for(s, which) for s in shapes]
     for combo in itertools.product(*[[x[0] for x in l] for l in lists]):
-        for dev in ((False, True, 'shared') if which in ('all', 'few') else (('shared',) if which == 'shared3' else (False,))):
+        for dev in ((False, True, 'inf-first', 'shared') if which in ('all', 'few') else (('shared',) if which == 'shared3' else (False,))):
             one_combo(ops, out, sz, combo, dev, r)
 
 
@@ -338,7 +357,7 @@ def one_combo(ops, out, sz, names, dev, r):
     shapes = [tuple(sizes[c] for c in o) for o in ops]
     sub = ('E1', ops, out, sz, tuple(names), dev)
     eq = ','.join(''.join(o) for o in ops) + '->' + ''.join(out)
-    desc = '%s sizes %s patterns %r%s' % (eq, sz, list(names), ' with 0/inf entries' if dev is True else (' (equal operands are the same object)' if dev else ''))
+    desc = '%s sizes %s patterns %r%s' % (eq, sz, list(names), ' with 0/inf entries' if dev is True else (' with inf in the first and 0 in the last operand' if dev == 'inf-first' else (' (equal operands are the same object)' if dev else '')))
     try:
         ts = []
         for k, (shape, nm) in enumerate(zip(shapes, names)):
@@ -355,6 +374,17 @@ def one_combo(ops, out, sz, names, dev, r):
                 p = t1.physical.clone()
                 p.view(-1)[-1] = inf
                 ts[-1] = PatternedTensor(p, t1.paxes, t1.vaxes, t1.default)
+        if dev == 'inf-first' and len(ts) > 1:
+            # the FIRST operand holds +inf where the LAST one (which holds no inf at all) is zero: 0 x inf = 0
+            t0, t1 = ts[0], ts[-1]
+            if not (t0.physical.numel() and t0.physical.is_contiguous() and t1.physical.numel() and t1.physical.is_contiguous()):
+                return
+            p = t0.physical.clone()
+            p.view(-1)[0] = inf
+            ts[0] = PatternedTensor(p, t0.paxes, t0.vaxes, t0.default)
+            p = t1.physical.clone()
+            p.view(-1)[0] = 0.
+            ts[-1] = PatternedTensor(p, t1.paxes, t1.vaxes, t1.default)
         if dev == 'shared':
             # the very same PatternedTensor object (or a flattened / transposed view sharing its axes) for equal operands
             can_share = any((shapes[j] == shapes[k] and names[j] == names[k]) or
